@@ -102,7 +102,7 @@ func TestVerifE3HTTPConcurrent(t *testing.T) {
 	opts.MaxMsgSize = 1000
 	opts.MaxBodySize = 4000
 	opts.DataPath = t.TempDir()
-	_, httpAddr, nsqd := mustStartNSQD(opts)
+	_, httpAddr, nsqd := vfStartNSQD(opts)
 	defer os.RemoveAll(opts.DataPath)
 
 	for i := 0; i < 12; i++ {
